@@ -121,9 +121,12 @@ def lenient_cmd(b):
 # ------------------------------------------------------------ concretiser
 ORD_POOL = "zQ7x~.-_=+|[]{}^`\\/\"'<>()!@%&;?\x01\x1b\x7f"
 NICK_ORD_POOL = ".~+=%&/"          # bytes that are not allowed in nicknames
-R2 = ["é", "ß", "Ω", "ñ"]
-R3 = ["€", "中", "→"]
-R4 = ["\U0001F600", "\U0001D11E"]
+# representatives of the 2/3/4-byte rune classes; half of them have a code point whose LOW BYTE is LF, CR or
+# NUL (U+010A, U+010D, U+0100, U+200A, U+4E0D, U+3000, U+1F60A, U+1F40D): a rune truncated to a byte somewhere
+# in the server turns into a control character
+R2 = ["é", "ß", "Ω", "ñ", "\u010a", "\u010d", "\u0100"]
+R3 = ["€", "中", "→", "\u200a", "\u4e0d", "\u3000"]
+R4 = ["\U0001F600", "\U0001D11E", "\U0001F60A", "\U0001F40D"]
 CMD_WORDS = {"PRIVMSG", "NOTICE", "TOPIC", "KICK", "QUIT", "PART", "AWAY", "KNOCK", "USER", "NICK", "PING",
              "WHOIS", "WHO", "LIST", "JOIN", "INVITE", "KILL", "PASS", "SERVER"}
 
@@ -707,6 +710,48 @@ def fuzz_program(ctx, name, rnd, cmds, nsteps):
     return b
 
 
+def sweep_program(ctx, name, rnd, quick):
+    """Length sweep around the 510-byte limit, byte by byte, for senders whose stored user name was cut at
+    its limit in every possible way (inside 2-, 3- and 4-byte characters), with texts of every rune width:
+    whatever combination of "cut here, sanitise there" the server uses, some delivered line ends exactly at
+    the limit.  Judged by the property predicate only (like the fuzz programs)."""
+    b = Builder(name, rnd)
+    b.services()
+    b.session("bob", "bob")
+    origin = {}
+
+    def raw(alias, data):
+        n = b.cmid.get(alias, 5000) + 1
+        b.cmid[alias] = n
+        i = b.add({"op": "raw", "session": alias, "method": "POST",
+                   "data": base64.b64encode(json_bytes([("Data", data), ("ClientMessageId", n)])).decode()})
+        origin[i] = data
+    users = [b"shortuser", b"u" * 40]
+    for w, ch in ((2, "\u00e9"), (3, "\u20ac"), (4, "\U0001F600")):
+        for inside in range(1, w):
+            # the character starts so that `inside` of its bytes are below the 32-byte limit
+            users.append(b"u" * (32 - inside) + ch.encode() + b"tail")
+    rnd.shuffle(users)
+    if quick:
+        users = users[:5]
+    subs = []
+    lo, hi = (418, 472) if quick else (395, 480)
+    for k, u in enumerate(users):
+        a = "sw%d" % k
+        subs.append(a)
+        b.add({"op": "create_session", "as": a})
+        raw(a, b"NICK sw%d" % k)
+        raw(a, b"USER " + u + b" 0 * :sweeper")
+        raw(a, b"JOIN #c")
+        for unit in (b"x", "\u00e9".encode(), "\u20ac".encode(), "\U0001F600".encode()):
+            for nbytes in range(lo, hi):
+                raw(a, b"PRIVMSG #c :" + b"x" * (nbytes % len(unit)) + unit * (nbytes // len(unit)))
+        raw(a, b"PART #c")
+    b.final_gets(["bob"] + subs, 60000)
+    b.origin = origin
+    return b
+
+
 def judge_fuzz(ctx, b, recs, judge):
     by_i = rig_common.by_step(recs)
     # raft id -> (posted bytes, op) for the replay file
@@ -798,7 +843,7 @@ def probe_tree(ctx, binary):
     b.session("p", "prb", user="u" * 200, real="r", join=False)
     b.post("p", "WHOIS prb")
     b.final_gets(["p"], 30000)
-    recs = rig_common.run(ctx, binary, [b.program()], par=1, name="probe")[b.name]
+    recs = rig_common.run(ctx, binary, [b.program()], par=1, name="probe", probe_errors_ok=True)[b.name]
     lines = stream_lines(rig_common.by_step(recs), b.streams["p"])
     srv, ulen = None, None
     for ln in lines:
@@ -880,7 +925,7 @@ def replay(ctx, path):
     b.post("bob", "PRIVMSG #c :after")
     live = ["bob", "raw"] + ([] if v.get("op") == "delete" else ["sub"])
     b.final_gets(live, 30000)
-    recs = rig_common.run(ctx, binary, [b.program()], par=1, name="replay")[b.name]
+    recs = rig_common.run(ctx, binary, [b.program()], par=1, name="replay", probe_errors_ok=True)[b.name]
     by_i = rig_common.by_step(recs)
     judge = Judge(ctx)
     for alias, idx in b.streams.items():
@@ -938,10 +983,11 @@ def run(ctx):
     cmds = repo_commands()
     nf = 3 if ctx.quick else 24
     fuzz = [fuzz_program(ctx, "c15-fuzz-%d" % k, random.Random(rnd.random()), cmds, 400 if ctx.quick else 1200) for k in range(nf)]
+    fuzz.append(sweep_program(ctx, "c15-sweep", random.Random(rnd.random()), ctx.quick))
     programs = [p.b.program() for p in plans] + [f.program() for f in fuzz]
     nsteps = sum(len(p["steps"]) for p in programs)
     ctx.log("replay: %d programs, %d requests (%d model cases)" % (len(programs), nsteps, sum(len(v) for v in main.values()) + sum(len(v) for v in dying.values())))
-    res = rig_common.run(ctx, binary, programs, par=8, timeout=1500, name="replay")
+    res = rig_common.run(ctx, binary, programs, par=8, timeout=1500, name="replay", probe_errors_ok=True)
     ctx.log("replay done")
 
     # ---- 4. predicate on every delivered line + trace records
